@@ -139,6 +139,8 @@ class Base:
 
     def assume_type(self, v, st):
         """Typing assumptions for a value of declared type (A4 in DESIGN.md)."""
+        if st.spec:
+            return      # specifications state the class facts they need explicitly
         if isinstance(v, RefV) and v.t.cls != 'object':
             isin = self.ctx.shapes.isinstance_term(v.term, v.t.cls)
             if v.nullable:
